@@ -109,6 +109,7 @@ def verify_function(prop, contract, callees, lib, timeout_hint=None, hooks=None)
         ex = Executor(ctx, fs, contract)
         if fs.is_pyx:
             ctx.cdivision = True
+        ctx.strict_defined = bool(getattr(contract, "strict_defined", False))
         try:
             module_env(fs, ex)
             path = Path()
